@@ -1,3 +1,4 @@
+import Splipy.Lemmas.C10Cummax
 import Splipy.Lemmas.C10Insert
 import Splipy.Lemmas.C10Ctor
 import Splipy.Lemmas.C07Piece
@@ -208,7 +209,7 @@ theorem splitInsert_wf {o so : Obj K} (h : o.WellFormed) (tol : K) (knots : List
 /-- What a successful non-periodic constructor call returns and implies. -/
 theorem mk?_ok_inv {p : ℕ} {knots : Array K} {tol : K} {nb : Basis K}
     (h : Basis.mk? p knots (-1) tol = .ok nb) :
-    nb = { order := p, knots := knots, periodic := -1 } ∧ 1 ≤ p ∧ 2 * p ≤ knots.size := by
+    nb = { order := p, knots := Basis.cummax knots, periodic := -1 } ∧ 1 ≤ p ∧ 2 * p ≤ knots.size := by
   rcases Basis.mk?_cases p knots (-1) tol with he | ho
   · rw [he] at h; cases h
   · have hn := (Basis.mk?_ok_iff p knots (-1) tol).1 ho
@@ -281,6 +282,8 @@ theorem piece_of_mk? {self so : Obj K} {dir n c : ℕ}
   rw [← hord] at hmk
   obtain ⟨hnb, hp, hsz⟩ := mk?_ok_inv hmk
   rw [Array.size_extract, Nat.min_eq_left h2] at hsz
+  rw [Basis.cummax_extract_of_sorted _ _ _
+    (Basis.sorted_getD_of_kn _ (hw.valid dir hd').sorted)] at hnb
   have hnb' : nb = (so.basis dir).piece lo hi := hnb
   have hlo : lo + (so.basis dir).order ≤ hi := by omega
   refine ⟨hlo, ?_, ?_, ?_⟩
